@@ -253,6 +253,11 @@ type Received struct {
 func (r *Run) Decode(kind refcose.Kind, b []byte) (*Received, error) {
 	rc := &Received{Kind: kind}
 	var err error
+	// the receive buffer: the decoder reads a private copy of the wire bytes,
+	// and the application re-uses that buffer straight after the call (here:
+	// every octet complemented).  A decoded message shares no memory with it.
+	b = append([]byte{}, b...)
+	defer scribble(b)
 	switch kind {
 	case refcose.KSignTagged:
 		rc.MS = new(cose.SignMessage)
@@ -273,12 +278,20 @@ func (r *Run) Decode(kind refcose.Kind, b []byte) (*Received, error) {
 	return rc, nil
 }
 
+func scribble(b []byte) {
+	for i := range b {
+		b[i] = ^b[i]
+	}
+}
+
 // DecodeReusing decodes `earlier` and then `b` into the same destination
 // variable (a server recycling its structs) and returns the outcome of the
 // second decode.
 func (r *Run) DecodeReusing(kind refcose.Kind, earlier, b []byte) (*Received, error) {
 	rc := &Received{Kind: kind}
 	var err error
+	b = append([]byte{}, b...)
+	defer scribble(b)
 	switch kind {
 	case refcose.KSignTagged:
 		rc.MS = new(cose.SignMessage)
